@@ -29,10 +29,11 @@ Lemma due_sum_sset_fresh f h0 H k u rk r : sget u rk = None ->
 Proof. intro G. unfold due_sum. rewrite ssumk_sset. unfold old_of. rewrite G. lia. Qed.
 
 Lemma process_phi h0 k s r : idx_inv s -> J s -> nn s -> height s = h0 -> sget (ur s) (rkey r) = Some r -> ur_cn r = h0 ->
+  is_native (ur_asset r) = false ->
   phi_wd h0 (hold s) k (process s r) = phi_wd h0 (hold s) k s /\
   phi_pd h0 (hold s) k (process s r) = phi_pd h0 (hold s) k s.
 Proof.
-  intros I [S A] N Hh G Cn. pose proof I as (Su & _). pose proof N as (_ & _ & _ & _ & _ & Nh). unfold phi_wd, phi_pd, WD.
+  intros I [S A] N Hh G Cn Nat. pose proof I as (Su & _). pose proof N as (_ & _ & _ & _ & _ & Nh). unfold phi_wd, phi_pd, WD.
   unfold process. destruct (0 <? hold_count s (rkey r)) eqn:Eh.
   - (* re-queue *)
     apply Z.ltb_lt in Eh. unfold set_record. simpl.
@@ -47,7 +48,8 @@ Proof.
   - (* release (or a failed update: nothing changes) *)
     apply Z.ltb_ge in Eh.
     destruct (upd_dg s _ 0 (- ur_amt r)) as [[s1 z]|] eqn:E1; [|split; reflexivity].
-    destruct (upd_sa s1 _ 0 (ur_act r) (- ur_amt r)) as [s2|] eqn:E2; [|split; reflexivity].
+    destruct (pay_staker s1 r) as [s2|] eqn:E2; [|split; reflexivity].
+    apply pay_spec in E2. destruct E2 as [(Nt & _)|(_ & E2)]; [congruence|].
     destruct (upd_oa s2 _ 0 (- ur_amt r) 0 0) as [s3|] eqn:E3; [|split; reflexivity].
     pose proof (upd_dg_srt _ _ _ _ _ _ S E1) as S1. pose proof (upd_sa_srt _ _ _ _ _ _ S1 E2) as S2.
     destruct (upd_dg_reads _ _ _ _ _ _ S E1) as (_ & a1 & b1 & c1 & h1 & _).
@@ -85,7 +87,7 @@ Proof.
 Qed.
 
 Definition creditQ (s0 : st) (k : string) (s : st) : Prop :=
-  J s /\ nn s /\ hold s = hold s0 /\ height s = height s0 /\
+  J s /\ nn s /\ lst_only s /\ hold s = hold s0 /\ height s = height s0 /\
   phi_wd (height s0) (hold s0) k s = phi_wd (height s0) (hold s0) k s0 /\
   phi_pd (height s0) (hold s0) k s = phi_pd (height s0) (hold s0) k s0.
 
@@ -93,19 +95,21 @@ Lemma end_block_credit s k : inv_all s ->
   phi_wd (height s) (hold s) k (end_block s) = phi_wd (height s) (hold s) k s /\
   phi_pd (height s) (hold s) k (end_block s) = phi_pd (height s) (hold s) k s.
 Proof.
-  intros (I & Hj & N). pose proof I as (Su & Sp & K & Ip & W & Hh). unfold end_block.
+  intros (I & Hj & N & Lst). pose proof I as (Su & Sp & K & Ip & W & Hh). unfold end_block.
   destruct (fetch (ur s) (due_keys (height s) (pidx s))) as [recs|] eqn:F; [|split; reflexivity].
   destruct (fetch_keys _ _ _ K F) as [MK Gs].
   assert (NoDup (map rkey recs)) as ND by (rewrite MK; apply due_keys_nodup; assumption).
   assert (forall r, In r recs -> ur_cn r = height s) as HP.
   { intros r In0. assert (In (rkey r) (due_keys (height s) (pidx s))) as InK by (rewrite <- MK; apply in_map; assumption).
     destruct (due_keys_spec s (height s) (rkey r) I Hh InK) as (r2 & G2 & Cn). rewrite (Gs r In0) in G2. inversion G2; subst. exact Cn. }
-  assert (creditQ s k (fold_left process recs s)) as (_ & _ & _ & _ & A & B).
+  assert (creditQ s k (fold_left process recs s)) as (_ & _ & _ & _ & _ & A & B).
   { apply (process_loop_P (fun r => ur_cn r = height s) (creditQ s k)); try assumption.
-    - intros s1 r I1 G1 Cn (J1 & N1 & H1 & Hg1 & A1 & B1).
+    - intros s1 r I1 G1 Cn (J1 & N1 & L1 & H1 & Hg1 & A1 & B1).
       destruct (process_J s1 r I1 J1 G1) as [J' H']. destruct (process_idx s1 r I1 G1) as (_ & _ & Hg').
-      destruct (process_phi (height s) k s1 r I1 J1 N1 Hg1 G1 Cn) as [P1 P2]. rewrite H1 in P1, P2.
-      split; [exact J'|]. split; [apply process_nn; assumption|]. split; [congruence|]. split; [congruence|]. split; congruence.
-    - split; [exact Hj|]. split; [exact N|]. repeat split; reflexivity. }
+      assert (is_native (ur_asset r) = false) as Nat by (apply negb_true_iff; exact (allv_sget _ _ _ _ L1 G1)).
+      destruct (process_phi (height s) k s1 r I1 J1 N1 Hg1 G1 Cn Nat) as [P1 P2]. rewrite H1 in P1, P2.
+      split; [exact J'|]. split; [apply process_nn; assumption|]. split; [apply process_lst; assumption|].
+      split; [congruence|]. split; [congruence|]. split; congruence.
+    - split; [exact Hj|]. split; [exact N|]. split; [exact Lst|]. repeat split; reflexivity. }
   split; [exact A | exact B].
 Qed.
